@@ -100,6 +100,22 @@ Theorem multi_component : forall cs tr ss' i c s', mrun cs (repeat init (length 
   nth_error cs i = Some c -> nth_error ss' i = Some s' -> run c init (proj i tr) = Some s'.
 Proof. exact multi_component_pf. Qed.
 
+(* ---- fresh subjects ----
+   [subs] = the subjects of the query events of a service object over its whole history.  When they
+   are pairwise distinct, a request published on the subject of query event i is delivered to query
+   event i and to no other, and (mstep_local) the step it causes leaves every other query event
+   untouched: with [multi_component], query events do not interfere.  Freshness itself is a property
+   of the subject generator (nats.NewInbox); it is checked on the implementation's outputs over
+   restart histories (Run_C15, violation code 9), not proved. *)
+Theorem fresh_subjects_route : forall subs i subj, NoDup subs -> nth_error subs i = Some subj ->
+  In i (route subs subj) /\ forall j, In j (route subs subj) -> j = i.
+Proof. exact fresh_subjects_route_pf. Qed.
+Theorem mstep_local : forall cs ss i l ss' j, mstep cs ss (i, l) = Some ss' -> j <> i -> nth_error ss' j = nth_error ss j.
+Proof. exact mstep_local_pf. Qed.
+(* ... and without freshness a request addressed to one query event is received by another *)
+Example stale_subject_refuted : route [7; 8; 7] 7 = [0%nat; 2%nat].
+Proof. vm_compute. reflexivity. Qed.
+
 (* ---- the code before the fix ---- *)
 (* a request received BEFORE the expiry had its callback run after the nil call ... *)
 Theorem late_callback_v0_refuted : exists c tr s m,
